@@ -294,7 +294,11 @@ theorem zstdLoop_dec_spec (hZ : ZDecContract L Dec) (E : ZDoom hZ) {K : Kind} (h
         rw [hpf] at this; cases this
       · -- the input has gone wrong
         have hKn : K ≠ Kind.valid := by rw [hK]; decide
-        rcases E.call hB inp' room' fl hpre1 hr0 _ rfl with he | ⟨hc, hol, hhint, ⟨j', hB', hjj⟩, hby⟩
+        have hcall : inp' ≠ [] ∨ rest.drop ai = [] := by
+          by_cases h0 : inp' = []
+          · exact Or.inr (hempty h0).2.2
+          · exact Or.inl h0
+        rcases E.call hB inp' room' fl hpre1 hr0 hcall _ rfl with he | ⟨hc, hol, hhint, ⟨j', hB', hjj⟩, hby⟩
         · simp only [he, if_true]
           refine ⟨fun r h => ?_, fun a' h => (by cases h)⟩
           cases h
